@@ -704,7 +704,7 @@ class Monitor(cmd.Cmd):
         start = self._address_parser.number(split[1])
         end = self._address_parser.number(split[2])
 
-        mem = self._mpu.memory[start:end + 1]
+        mem = [self._mpu.memory[addr] for addr in range(start, end + 1)]
         try:
             f = open(filename, 'wb')
             for m in mem:
